@@ -318,8 +318,21 @@ def run(a, prop, modname, shards, cases, seconds, work, t0):
     return 0
 
 
+def _pretty(o):
+    """samples are for reading, not for replay: datetimes as ISO text"""
+    if isinstance(o, dict):
+        if set(o.keys()) == {'$dt'}:
+            y, m, d, hh, mm, ss, us = (list(o['$dt']) + [0] * 7)[:7]
+            return f'{y:04d}-{m:02d}-{d:02d}T{hh:02d}:{mm:02d}' + (f':{ss:02d}.{us:06d}' if ss or us else '')
+        return {k: _pretty(v) for k, v in o.items()}
+    if isinstance(o, list):
+        return [_pretty(v) for v in o]
+    return o
+
+
 def write_evidence(prop, ev, inconclusive):
     from vf import core
+    ev['coverage']['samples'] = _pretty(json.loads(core.jdump(ev['coverage']['samples'])))
     path = os.path.join(HERE, 'evidence', f'{prop}.json')
     os.makedirs(os.path.dirname(path), exist_ok=True)
     text = core.jdump(ev, indent=1)
